@@ -56,25 +56,38 @@ def explore(mod, tier: str) -> int:
         for sig, msg in out["problems"]:
             if outcome.findings.is_known(sig):
                 continue
-            if sig not in unknown:
-                unknown[sig] = (out["case"], msg)
+            # keep a few candidate cases per signature: a case seen in a worker that ran other cases before may depend
+            # on what those left behind in the process and then does not reproduce from a clean state
+            if len(unknown.setdefault(sig, [])) < 4:
+                unknown[sig].append((out["case"], msg))
 
     core.run_batch(mod.worker, seeds, wall_cap_s=budget["wall"], chunk=budget.get("chunk", 4),
                    on_result=on_result, start=getattr(mod, "START", "fork"),
                    jobs=min(core.n_jobs(), budget.get("jobs", 64)))
 
+    unreproducible = []
     for sig in sorted(unknown):
-        case, msg = unknown[sig]
-        try:
+        path = None
+        for case, msg in unknown[sig]:
+            # first: does this case violate at all when executed from a clean process state?
+            path = mod.write_replay(case, sig, msg, {"note": "not minimised"})
+            if path is None:
+                continue
             case2, info = mod.minimise(case, sig)
-        except core.HarnessError:
-            raise
-        path = mod.write_replay(case2, sig, msg, info)
+            path2 = mod.write_replay(case2, sig, msg, info)
+            path = path2 or path
+            break
         if path is None:
-            path = mod.write_replay(case, sig, msg, {"note": "minimised case did not reproduce; original case kept"})
-        if path is None:
-            raise core.HarnessError(f"violation {sig} found but it does not replay deterministically")
+            unreproducible.append(sig)
+            continue
         outcome.violation(sig, path, msg)
+    if unreproducible:
+        import sys
+        print(f"{mod.PROP}: {len(unreproducible)} violation signature(s) were seen in worker processes but none of their "
+              f"candidate cases reproduced from a clean process state: {unreproducible[:6]}", file=sys.stderr)
+        if not outcome.violations:
+            raise core.HarnessError("violations were observed that do not replay from a clean process state: "
+                                    + ", ".join(unreproducible[:6]))
 
     wall = time.monotonic() - t0
     cov = {
